@@ -419,21 +419,25 @@ def judge_design(case, vars_, names, rows, fail):
         ok = (X >= L - tol) & (X <= U + tol)
         if not np.all(ok):
             r, j = np.argwhere(~ok)[0]
-            fail('out-of-bounds', f"run {r} factor {j}: value {X[r, j]!r} not in [{L[j]!r}, {U[j]!r}]")
+            fail('out-of-bounds', f"run {r} factor {j}: value {float(X[r, j])!r} not in [{float(L[j])!r}, {float(U[j])!r}]")
     ltol = 4 * np.spacing(mag) + 4 * np.spacing(np.abs(U - L))
 
-    def design_map(D, table):
+    def design_map(D, table, ordered=True):
         """D: integer level indices per run; table[j]: level values of factor j."""
         D = np.asarray(D)
         if D.shape != (R, F):
             fail('design-map:shape', f"{R} runs of {F} factors generated, pydoe design has shape {D.shape}")
             return
         E = np.array([[table[j][int(D[r, j])] for j in range(F)] for r in range(D.shape[0])]).reshape(D.shape)
-        bad = np.abs(X - E) > ltol
+        Xc = X
+        if not ordered:                     # compare as multisets of runs
+            E = E[np.lexsort(E.T[::-1])]
+            Xc = X[np.lexsort(X.T[::-1])]
+        bad = np.abs(Xc - E) > ltol
         if np.any(bad):
             r, j = np.argwhere(bad)[0]
-            fail('design-map:value', f"run {r} factor {j}: value {X[r, j]!r}, design index {int(D[r, j])} -> expected {E[r, j]!r} "
-                 f"(levels {table[j].tolist()})")
+            fail('design-map:value', f"{'run' if ordered else 'sorted run'} {r} factor {j}: value {float(Xc[r, j])!r}, expected "
+                 f"{float(E[r, j])!r} (levels {table[j].tolist()})")
 
     if t in ('ff', 'gsd'):
         lv = level_list(case, vars_, names)
@@ -462,7 +466,7 @@ def judge_design(case, vars_, names, rows, fail):
                         break
                     cnt[tuple(key)] += 1
                 if bad:
-                    fail('ff:not-a-level', f"run {bad[0]} factor {bad[1]}: {X[bad[0], bad[1]]!r} not in {table[bad[1]].tolist()}")
+                    fail('ff:not-a-level', f"run {bad[0]} factor {bad[1]}: {float(X[bad[0], bad[1]])!r} not in {table[bad[1]].tolist()}")
                 else:
                     want = set(itertools.product(*[range(lv[j]) for j in free]))
                     if set(cnt) != want or any(c != mult for c in cnt.values()):
@@ -473,10 +477,13 @@ def judge_design(case, vars_, names, rows, fail):
             if t == 'ff':
                 D = pydoe.fullfact(lv)
             else:
-                D = pydoe.gsd(levels=lv, reduction=g['reduction'], n=1)
+                D = pydoe.gsd(levels=lv, reduction=g['reduction'], n=g['n'])
+                if g['n'] > 1:
+                    # n complementary designs (a list): all of them have to be run; their order is not specified
+                    D = np.vstack(D)
         except Exception as e:
             raise ThirdParty(f"{type(e).__name__}: {e}")
-        design_map(np.asarray(D).astype(int), table)
+        design_map(np.asarray(D).astype(int), table, ordered=not (t == 'gsd' and g['n'] > 1))
     elif t == 'pb':
         import pydoe
         D = (np.asarray(pydoe.pbdesign(F)) > 0).astype(int)
@@ -499,7 +506,7 @@ def judge_design(case, vars_, names, rows, fail):
                 k = np.arange(n)
                 if np.any(tt < k - delta) or np.any(tt > k + 1 + delta) or np.any(np.isnan(tt)):
                     fail('lhs:strata', f"factor {j}: normalised*n sorted = {tt.tolist()} does not put one sample in each of "
-                         f"{n} strata (values {X[:, j].tolist()}, bounds [{L[j]!r}, {U[j]!r}])")
+                         f"{n} strata (values {X[:, j].tolist()}, bounds [{float(L[j])!r}, {float(U[j])!r}])")
                     break
                 if g['criterion'] in CENTRED and np.any(np.abs(tt - (k + 0.5)) > delta):
                     fail('lhs:not-centred', f"factor {j}: normalised*n sorted = {tt.tolist()} not at stratum centres")
@@ -510,7 +517,7 @@ def judge_design(case, vars_, names, rows, fail):
         elif R >= 3 and np.any(U > L):
             j = int(np.argmax(U - L))
             if np.unique(X[:, j]).size == 1:
-                fail('uniform:samples-identical', f"all {R} samples of factor {j} equal {X[0, j]!r}")
+                fail('uniform:samples-identical', f"all {R} samples of factor {j} equal {float(X[0, j])!r}")
 
 
 def judge_data_rows(case, names, rows, fail):
